@@ -297,6 +297,16 @@ impl Lexer {
         self.chars.get(self.index + dist).cloned()
     }
 
+    /// byte span in the source of the characters [lo, hi) (errors reported while lexing point
+    /// into the source text, which is addressed in bytes)
+    fn byte_span(&self, lo: usize, hi: usize) -> Span {
+        let byte_of = |idx: usize| self.chars[..idx.min(self.chars.len())].iter().map(|c| c.len_utf8()).sum();
+        Span {
+            lo: byte_of(lo),
+            hi: byte_of(hi),
+        }
+    }
+
     fn slice(&self, begin: usize, end: usize) -> &[char] {
         &self.chars[self.index + begin..self.index + end]
     }
@@ -536,7 +546,9 @@ pub(crate) fn tokenize_file(ctx: &mut StaticsContext, file_id: FileId) -> Vec<To
                         Some(c) => (c, c + 1),
                         None => (n_off, n_off),
                     };
-                let s = process_escapes_into(lexer.slice(1, content_end), ctx, file_id);
+                let s = process_escapes_into(lexer.slice(1, content_end), ctx, file_id, |p| {
+                    lexer.byte_span(open + 1 + p, open + 1 + p + 2)
+                });
                 emit_string_token(&mut lexer, s, open, open + after_close);
             }
             '\'' => {
@@ -547,7 +559,9 @@ pub(crate) fn tokenize_file(ctx: &mut StaticsContext, file_id: FileId) -> Vec<To
                         Some(c) => (c, c + 1),
                         None => (n_off, n_off),
                     };
-                let s = process_escapes_into(lexer.slice(1, content_end), ctx, file_id);
+                let s = process_escapes_into(lexer.slice(1, content_end), ctx, file_id, |p| {
+                    lexer.byte_span(open + 1 + p, open + 1 + p + 2)
+                });
                 emit_string_token(&mut lexer, s, open, open + after_close);
             }
             '/' => {
@@ -586,8 +600,8 @@ pub(crate) fn tokenize_file(ctx: &mut StaticsContext, file_id: FileId) -> Vec<To
                 lexer.index += 2;
             }
             _ => {
-                ctx.errors
-                    .push(Error::UnrecognizedToken(file_id, lexer.index));
+                let span = lexer.byte_span(lexer.index, lexer.index + 1);
+                ctx.errors.push(Error::UnrecognizedToken(file_id, span));
                 lexer.index += 1;
             }
         }
@@ -628,9 +642,14 @@ fn scan_for_unescaped_delim(
 }
 
 // Process escape sequences in offsets [start..end], appending decoded chars to `s`.
-fn process_escapes_into(chars: &[char], ctx: &mut StaticsContext, file_id: FileId) -> String {
+// `locate(p)` gives the source span to report for a bad escape starting at content offset `p`.
+fn process_escapes_into(
+    chars: &[char],
+    ctx: &mut StaticsContext,
+    file_id: FileId,
+    locate: impl Fn(usize) -> Span,
+) -> String {
     let mut s = "".to_string();
-    let base = 0;
     let mut p = 0;
     let end = chars.len();
     while p < end
@@ -657,21 +676,12 @@ fn process_escapes_into(chars: &[char], ctx: &mut StaticsContext, file_id: FileI
                         p += 4;
                         continue;
                     }
-                    ctx.errors.push(Error::UnrecognizedEscapeSequence(
-                        file_id,
-                        Span {
-                            lo: base + p,
-                            hi: base + p + 1,
-                        },
-                    ));
+                    ctx.errors
+                        .push(Error::UnrecognizedEscapeSequence(file_id, locate(p)));
                 }
-                _ => ctx.errors.push(Error::UnrecognizedEscapeSequence(
-                    file_id,
-                    Span {
-                        lo: base + p,
-                        hi: base + p + 1,
-                    },
-                )),
+                _ => ctx
+                    .errors
+                    .push(Error::UnrecognizedEscapeSequence(file_id, locate(p))),
             }
             p += 2;
         } else {
@@ -833,7 +843,15 @@ fn handle_multiline_string(lexer: &mut Lexer, ctx: &mut StaticsContext, file_id:
         }
     }
 
-    let string_val = process_escapes_into(&string_val.chars().collect::<Vec<_>>(), ctx, file_id);
+    // the content was dedented, so an escape's position in it does not map back to the source:
+    // point at the whole literal
+    let literal_span = lexer.byte_span(lo, lexer.index + next);
+    let string_val = process_escapes_into(
+        &string_val.chars().collect::<Vec<_>>(),
+        ctx,
+        file_id,
+        |_| literal_span.clone(),
+    );
     emit_string_token(lexer, string_val, lo, lexer.index + next);
 }
 
